@@ -375,6 +375,10 @@ def run_case(spec):
             ulp = float(np.spacing(abs(tev))) if tev != 0 else 0.0
             tolx = max(4 * eps * (1 + abs(tev)), 4 * ulp)
             # nearest true root
+            if not roots and spec["kind"] == "row_root":
+                # the level is a value of the NUMERICAL solution: near a turning point of the component the exact trajectory may never reach it
+                rec.bump("skipped_row_level_not_reached_by_the_exact_trajectory")
+                continue
             if not roots:
                 rec.violate("event_no_true_root", "reported_event_but_g_has_no_root_along_exact_trajectory", dict(feats, ev_kind=ev.kind), t_e=tev, event=ev.spec)
                 continue
